@@ -78,13 +78,13 @@ Qed.
 Definition res_ok (g : netlist) (n : net) (r : tres) : Prop :=
   match r with
   | TOk _ (Some (s, p)) => chain g s p /\ last p s = n
-  | TRaise p => exists x, chain g x p /\ p <> [] /\ last p x = x
+  | TRaise p => exists s m, chain g s p /\ p <> [] /\ last p s = m /\ (s = m \/ In s (extras g m))
   | _ => True
   end.
 Definition loop_ok (g : netlist) (n : net) (r : tres) : Prop :=
   match r with
   | TOk _ (Some (s, p)) => chain g s p /\ last p s = n /\ p <> []
-  | TRaise p => exists x, chain g x p /\ p <> [] /\ last p x = x
+  | TRaise p => exists s m, chain g s p /\ p <> [] /\ last p s = m /\ (s = m \/ In s (extras g m))
   | _ => True
   end.
 
@@ -111,14 +111,16 @@ Proof.
                 (Dfs (checked st) (extras g n ++ n :: busy st)) (fun s H => H)) as H.
   destruct (trav_loop _ _ _ _) as [st2 [[s0 p]|]|p|]; simpl in *; try exact I.
   - destruct H as [Hc [Hl Hne]].
-    destruct (net_eqb s0 n) eqn:E; simpl.
-    + apply net_eqb_eq in E. subst s0. exists n. auto.
+    destruct (net_eqb s0 n || nmem s0 (extras g n)) eqn:E; simpl.
+    + exists s0, n. repeat split; auto. apply orb_true_iff in E as [E|E];
+        [left; now apply net_eqb_eq|right; now apply nmem_In].
     + auto.
   - exact H.
 Qed.
 
 Lemma top_loop_sound g fuel : forall rs st p,
-  top_loop g fuel rs st = VCycle p -> exists x, chain g x p /\ p <> [] /\ last p x = x.
+  top_loop g fuel rs st = VCycle p ->
+  exists s m, chain g s p /\ p <> [] /\ last p s = m /\ (s = m \/ In s (extras g m)).
 Proof.
   induction rs as [|r rs IH]; intros st p H; simpl in H; [discriminate|].
   pose proof (traverse_ok g fuel r st) as Hr.
@@ -127,13 +129,44 @@ Proof.
   - inversion H; subst. exact Hr.
 Qed.
 
-Theorem dfs_sound g p :
-  check_cycles g = VCycle p ->
-  exists x, chain g x p /\ p <> [] /\ last p x = x /\ reach g x x.
+Lemma comb_edges_not_per_bit c b b' : per_bit c = false -> comb_edges c b = comb_edges c b'.
 Proof.
-  intro H. apply top_loop_sound in H. destruct H as [x [Hc [Hne Hl]]].
-  exists x. repeat split; try assumption.
-  pose proof (chain_reach g p x Hc Hne) as R. now rewrite Hl in R.
+  destruct c; simpl; try reflexivity; try discriminate.
+  destruct ins as [|i1 [|i2 [|i3 [|i4 r]]]]; try reflexivity.
+  - destruct k; try reflexivity; discriminate.
+  - intro H. now rewrite H.
+  - discriminate.
+Qed.
+
+(* the outputs merged with a net have the same comb edges (cell 0 = Top has none) *)
+Lemma extras_succs_rev g n e m : top_first g = true -> In e (extras g n) -> edge g n m -> edge g e m.
+Proof.
+  unfold top_first, extras, edge, succs. intro T. destruct (is_const n) eqn:Cn; [intros []|].
+  destruct n as [c b|l]; [|intros []].
+  destruct (nth_error (cells g) c) as [cl|] eqn:Ec; [|intros []].
+  destruct (per_bit cl) eqn:Pb; [intros []|].
+  intros He. apply filter_In in He as [He _]. unfold outputs in He. apply in_map_iff in He as [b' [<- _]].
+  destruct (is_const (NC c b')) eqn:Ce.
+  - destruct c; [|discriminate]. destruct (cells g) as [|c0 r]; [discriminate|]. simpl in Ec. inversion Ec; subst.
+    destruct cl; try discriminate. intros [].
+  - rewrite Ec. now rewrite (comb_edges_not_per_bit cl b' b Pb).
+Qed.
+
+(* a reported path runs from the frame's net m back to m, or to an output s merged with m; either way the
+   net s lies on a real cycle *)
+Theorem dfs_sound g p :
+  top_first g = true -> check_cycles g = VCycle p ->
+  exists s m, chain g s p /\ p <> [] /\ last p s = m /\ (s = m \/ In s (extras g m)) /\ reach g s s.
+Proof.
+  intros T H. apply top_loop_sound in H. destruct H as [s [m [Hc [Hne [Hl Hor]]]]].
+  exists s, m. repeat split; try assumption.
+  destruct Hor as [->|He].
+  - pose proof (chain_reach g p m Hc Hne) as R. now rewrite Hl in R.
+  - destruct (exists_last Hne) as [p' [x Hp]]. subst p. rewrite last_app_one in Hl. subst x.
+    apply chain_app in Hc as [Hc He'].
+    assert (Hc' : chain g s (p' ++ [s])) by (apply chain_app; split; [assumption|eapply extras_succs_rev; eassumption]).
+    pose proof (chain_reach g (p' ++ [s]) s Hc') as R. rewrite last_app_one in R. apply R.
+    destruct p'; discriminate.
 Qed.
 
 (* ---------- completeness: acceptance means no net of the netlist lies on a cycle ---------- *)
@@ -175,15 +208,6 @@ Proof.
   - intros m He. apply in_or_app. right. eapply H; [now left|eassumption].
 Qed.
 
-Lemma comb_edges_not_per_bit c b b' : per_bit c = false -> comb_edges c b = comb_edges c b'.
-Proof.
-  destruct c; simpl; try reflexivity; try discriminate.
-  destruct ins as [|i1 [|i2 [|i3 [|i4 r]]]]; try reflexivity.
-  - destruct k; try reflexivity; discriminate.
-  - intro H. now rewrite H.
-  - discriminate.
-Qed.
-
 Lemma extras_succs g n e m : In e (extras g n) -> edge g e m -> edge g n m.
 Proof.
   unfold extras, edge, succs. destruct (is_const n) eqn:Cn; [intros []|].
@@ -223,7 +247,7 @@ Proof.
   destruct (nmem n (busy st)); [exact I|].
   destruct (trav_loop (traverse g fuel) n (succs g n) (Dfs (checked st) (extras g n ++ n :: busy st)))
     as [st2 [[s0 p]|]|p|] eqn:EL; simpl; try exact I.
-  { destruct (net_eqb s0 n); exact I. }
+  { destruct (net_eqb s0 n || nmem s0 (extras g n)); exact I. }
   intro T.
   destruct (trav_loop_none g (traverse g fuel) n IH _ _ _ EL T) as [T2 [I2 S2]]. simpl in S2.
   assert (Tn : topo g (n :: checked st2)) by (constructor; [assumption| intros m Hm; now apply I2]).
@@ -360,7 +384,7 @@ Proof.
   destruct (nmem n (busy st)); [apply incl_refl|].
   pose proof (trav_loop_mono (traverse g fuel) n IH (succs g n) (Dfs (checked st) (extras g n ++ n :: busy st))) as H.
   destruct (trav_loop _ _ _ _) as [st2 [[s0 p]|]|p|]; simpl in *; try exact I.
-  - destruct (net_eqb s0 n); [exact I|]. simpl. intros x Hx. apply finish_seen. apply H.
+  - destruct (net_eqb s0 n || nmem s0 (extras g n)); [exact I|]. simpl. intros x Hx. apply finish_seen. apply H.
     unfold seen in *. simpl. apply in_app_or in Hx. apply in_or_app. destruct Hx; [now left|right].
     apply in_or_app. right. now right.
   - intros x Hx. apply finish_seen. apply H.
@@ -410,7 +434,7 @@ Proof.
     - intros s Hs. eapply Hc; eassumption.
     - lia. }
   destruct (trav_loop _ _ _ _) as [st2 [[s0 p]|]|p|]; try discriminate; [|congruence].
-  destruct (net_eqb s0 n); discriminate.
+  destruct (net_eqb s0 n || nmem s0 (extras g n)); discriminate.
 Qed.
 
 Lemma top_loop_fuel g fuel : closed_nets g -> length (all_nets g) < fuel ->
@@ -435,14 +459,72 @@ Proof.
   - intros r Hr. right. right. exact Hr.
 Qed.
 
-(* every netlist with a cycle through one of its nets is rejected — by CombinationalCycle or by the bare
-   AssertionError of `assert traverse(net) is None` *)
-Theorem dfs_rejects_cycles g n :
-  wf_netlist g = true -> In n (all_nets g) -> reach g n n ->
-  (exists p, check_cycles g = VCycle p) \/ check_cycles g = VAssert.
+(* ---------- the top-level `assert traverse(net) is None` can no longer fail ---------- *)
+Definition busy_res (st : dfs) (r : tres) : Prop :=
+  match r with
+  | TOk st' c => incl (busy st') (busy st) /\ (forall s p, c = Some (s, p) -> In s (busy st))
+  | _ => True
+  end.
+
+Lemma trav_loop_busy trav n :
+  (forall s st, busy_res st (trav s st)) -> forall ss st, busy_res st (trav_loop trav n ss st).
 Proof.
-  intros W Hn R. pose proof (dfs_fuel g W) as F. pose proof (dfs_complete g) as C.
-  destruct (check_cycles g) as [|p| |]; [exfalso; exact (C eq_refl n Hn R)|left; eauto|now right|congruence].
+  intros Ht. induction ss as [|s ss IH]; intros st; simpl.
+  - split; [apply incl_refl|discriminate].
+  - pose proof (Ht s st) as H. destruct (trav s st) as [st1 [[s0 p]|]|p|]; simpl in *; try exact I.
+    + destruct H as [H1 H2]. split; [assumption|]. intros s' p' E. inversion E; subst. eapply H2; reflexivity.
+    + destruct H as [H1 _]. pose proof (IH st1) as H3. destruct (trav_loop trav n ss st1) as [st2 c| |]; simpl in *; try exact I.
+      destruct H3 as [H3 H4]. split; [eapply incl_tran; eassumption|]. intros s' p' E. apply H1. eapply H4; eassumption.
+Qed.
+
+Lemma finish_busy n ex st st2 x :
+  incl (busy st2) (ex ++ n :: busy st) ->
+  In x (fold_left (fun b e => remove_net e b) ex (remove_net n (busy st2))) -> In x (busy st).
+Proof.
+  intros H Hx. apply fold_remove_In in Hx as [Hx Hex]. apply remove_net_In in Hx as [Hx Hn].
+  apply H in Hx. apply in_app_or in Hx. destruct Hx as [Hx|[Hx|Hx]]; [contradiction|congruence|assumption].
+Qed.
+
+Lemma traverse_busy g : forall fuel n st, busy_res st (traverse g fuel n st).
+Proof.
+  induction fuel as [|fuel IH]; intros n st; simpl; [exact I|].
+  destruct (nmem n (checked st)); [split; [apply incl_refl|discriminate]|].
+  destruct (nmem n (busy st)) eqn:Bk.
+  { split; [apply incl_refl|]. intros s p E. inversion E; subst. now apply nmem_In. }
+  pose proof (trav_loop_busy (traverse g fuel) n IH (succs g n) (Dfs (checked st) (extras g n ++ n :: busy st))) as H.
+  destruct (trav_loop _ _ _ _) as [st2 [[s0 p]|]|p|]; simpl in *; try exact I.
+  - destruct H as [H1 H2].
+    destruct (net_eqb s0 n || nmem s0 (extras g n)) eqn:E; [exact I|]. simpl.
+    apply orb_false_iff in E as [E1 E2].
+    split; [intros x Hx; eapply finish_busy; eassumption|].
+    intros s' p' Eq. inversion Eq; subst.
+    specialize (H2 _ _ eq_refl). apply in_app_or in H2. destruct H2 as [H2|[H2|H2]].
+    + apply nmem_In in H2. congruence.
+    + subst. assert (net_eqb s' s' = true) by now apply net_eqb_eq. congruence.
+    + assumption.
+  - destruct H as [H1 _]. split; [intros x Hx; eapply finish_busy; eassumption|discriminate].
+Qed.
+
+Lemma top_loop_no_assert g fuel : forall rs st, busy st = [] -> top_loop g fuel rs st <> VAssert.
+Proof.
+  induction rs as [|r rs IH]; intros st Hb; simpl; [discriminate|].
+  pose proof (traverse_busy g fuel r st) as H.
+  destruct (traverse g fuel r st) as [st1 [[s p]|]|p|]; simpl in *; try discriminate.
+  - destruct H as [_ H]. specialize (H _ _ eq_refl). rewrite Hb in H. destruct H.
+  - destruct H as [H _]. apply IH. rewrite Hb in H. destruct (busy st1) as [|x l]; [reflexivity|].
+    exfalso. apply (H x). now left.
+Qed.
+
+(* for ALL netlists *)
+Theorem dfs_no_assert g : check_cycles g <> VAssert.
+Proof. unfold check_cycles. now apply top_loop_no_assert. Qed.
+
+(* every well-formed netlist with a cycle through one of its nets is rejected with CombinationalCycle *)
+Theorem dfs_rejects_cycles g n :
+  wf_netlist g = true -> In n (all_nets g) -> reach g n n -> exists p, check_cycles g = VCycle p.
+Proof.
+  intros W Hn R. pose proof (dfs_fuel g W) as F. pose proof (dfs_complete g) as C. pose proof (dfs_no_assert g) as A.
+  destruct (check_cycles g) as [|p| |]; [exfalso; exact (C eq_refl n Hn R)|eauto|congruence|congruence].
 Qed.
 
 (* ---------- per-bit precision of the edge relation ---------- *)
@@ -884,15 +966,15 @@ Lemma zero_width_refuted :
   driver_table d = Some (ErrConnect 0 0) /\ conflictb d = false.
 Proof. vm_compute. split; reflexivity. Qed.
 
-(* m.d.comb += a.eq(a[1] + 1), a 2 bits wide: the DFS enters the adder by output 0 and closes on output 1 *)
+(* m.d.comb += a.eq(a[1] + 1), a 2 bits wide: the DFS enters the adder by output 0 and closes on its sibling
+   output 1; reported at the frame of output 0 since the `cycle.start in extra_nets` fix *)
 Definition g_assert : netlist :=
   Netlist [CTop []; COperator KOther 2 [[NL 1; NC 0 0]; [NC 0 1; NC 0 0]]]
           [(2, NC 1 0); (1, NC 1 1)] [[NL 2; NL 1]].
-Lemma dfs_cycle_error_refuted :
-  wf_netlist g_assert = true /\ reach g_assert (NL 1) (NL 1) /\ In (NL 1) (all_nets g_assert)
-  /\ check_cycles g_assert = VAssert.
+Lemma dfs_sibling_cycle_reported :
+  wf_netlist g_assert = true /\ top_first g_assert = true /\ reach g_assert (NL 1) (NL 1)
+  /\ check_cycles g_assert = VCycle [NL 1; NC 1 0].
 Proof.
   repeat split; try (vm_compute; reflexivity).
-  - eapply reach_step with (k := NC 1 1); [vm_compute; now left|]. apply reach_one. vm_compute. now left.
-  - vm_compute. tauto.
+  eapply reach_step with (k := NC 1 1); [vm_compute; now left|]. apply reach_one. vm_compute. now left.
 Qed.
